@@ -1,0 +1,507 @@
+//! Verification seams.  Compiled only with `--cfg n2_verif`; see /verif/DESIGN.md.
+//!
+//! `shim` is a drop-in replacement for the parts of `std` through which n2
+//! touches the outside world (files, threads, channels, one randomly ordered
+//! set, argv).  Modules opt in with `use crate::verif::shim as std;`.  With no
+//! simulator host installed every shim is a plain pass-through to the real
+//! `std`, so a guard-on build still behaves like n2.
+#![allow(dead_code)]
+
+use crate::graph::{Build, BuildId};
+pub use crate::process::Termination;
+use crate::progress::Progress;
+use crate::task::TaskResult;
+use crate::work::{BuildState, StateCounts};
+use ::std::cell::{Cell, RefCell};
+use ::std::io;
+
+/// Panic payload used to model the death of the n2 process.
+pub struct SimCrash;
+
+/// The kinds of outside-world calls n2 makes.
+#[derive(Debug, Clone, Copy, PartialEq, Eq, Hash)]
+pub enum Op {
+    Stat,
+    Mkdir,
+    WriteFile,
+    Create,
+    Open,
+    DbOpen,
+    DbWrite,
+    Recv,
+    Spawn,
+}
+
+/// What happens to one `write` call on the build log.
+pub enum WriteFate {
+    Full,
+    /// legal short write: only k bytes accepted, no error
+    Short(usize),
+    /// k bytes reach the file, then the process dies
+    Crash(usize),
+    /// k bytes reach the file, then the error is returned to n2
+    Err(usize, io::ErrorKind),
+}
+
+/// The simulator.  One object per simulated invocation, installed in a
+/// thread-local.  Never re-entered.
+pub trait Host {
+    fn argv0(&mut self) -> String;
+    fn args(&mut self) -> Vec<String>;
+    /// Called before every real I/O call n2 performs; `Some(kind)` makes the
+    /// call fail with that error instead.  May unwind with `SimCrash`.
+    fn point(&mut self, op: Op, path: &str, in_task: bool) -> Option<io::ErrorKind>;
+    /// Which of the `pending` stored task closures to execute now, if any.
+    /// `must` is true when n2 is blocked in recv on an empty channel.
+    fn pick_exec(&mut self, pending: usize, must: bool) -> Option<usize>;
+    /// Which sender's head message to deliver (index into the non-empty queues).
+    fn pick_deliver(&mut self, nonempty: usize) -> usize;
+    /// The simulated subprocess; `None` = really spawn it.
+    fn command(
+        &mut self,
+        cmdline: &str,
+        out: &mut dyn FnMut(&[u8]),
+    ) -> Option<anyhow::Result<Termination>>;
+    /// Iteration order of the one `HashSet` n2 iterates.
+    fn permute(&mut self, n: usize) -> Vec<usize>;
+    fn db_write(&mut self, len: usize) -> WriteFate;
+    fn db_written(&mut self, bytes: &[u8]);
+    fn on_state(&mut self, id: usize, desc: Option<&str>, cmdline: Option<&str>, prev: u8, next: u8);
+    fn on_update(&mut self, counts: [usize; 6]);
+    fn on_task_started(&mut self, id: usize, cmdline: &str);
+    fn on_task_finished(&mut self, id: usize, cmdline: &str, term: &Termination, output: &[u8]);
+}
+
+thread_local! {
+    static HOST: RefCell<Option<Box<dyn Host>>> = RefCell::new(None);
+    static TASKS: RefCell<Vec<Box<dyn FnOnce()>>> = RefCell::new(Vec::new());
+    static TASK_DEPTH: Cell<usize> = Cell::new(0);
+}
+
+pub fn install(h: Box<dyn Host>) {
+    TASKS.with(|t| t.borrow_mut().clear());
+    TASK_DEPTH.with(|c| c.set(0));
+    HOST.with(|c| *c.borrow_mut() = Some(h));
+}
+
+pub fn uninstall() -> Option<Box<dyn Host>> {
+    let pend = TASKS.with(|t| ::std::mem::take(&mut *t.borrow_mut()));
+    drop(pend);
+    TASK_DEPTH.with(|c| c.set(0));
+    HOST.with(|c| c.borrow_mut().take())
+}
+
+pub fn pending_tasks() -> usize {
+    TASKS.with(|t| t.borrow().len())
+}
+
+/// Execute the i-th stored task closure to completion.
+pub fn run_pending_task(i: usize) {
+    let f = TASKS.with(|t| t.borrow_mut().remove(i));
+    struct Depth;
+    impl Drop for Depth {
+        fn drop(&mut self) {
+            TASK_DEPTH.with(|c| c.set(c.get() - 1));
+        }
+    }
+    TASK_DEPTH.with(|c| c.set(c.get() + 1));
+    let _d = Depth;
+    f();
+}
+
+fn with_host<R>(f: impl FnOnce(&mut dyn Host) -> R) -> Option<R> {
+    HOST.with(|c| {
+        let mut b = c.borrow_mut();
+        b.as_mut().map(|h| f(h.as_mut()))
+    })
+}
+
+fn in_task() -> bool {
+    TASK_DEPTH.with(|c| c.get()) > 0
+}
+
+/// Let stored task closures make progress (never nested inside a task).
+fn background(must: bool) -> bool {
+    if in_task() {
+        return false;
+    }
+    let mut ran = false;
+    loop {
+        let n = pending_tasks();
+        if n == 0 {
+            break;
+        }
+        let pick = with_host(|h| h.pick_exec(n, must && !ran)).flatten();
+        match pick {
+            Some(i) => {
+                run_pending_task(i.min(n - 1));
+                ran = true;
+            }
+            None => break,
+        }
+    }
+    ran
+}
+
+fn point(op: Op, path: &str) -> io::Result<()> {
+    let t = in_task();
+    let r = with_host(|h| h.point(op, path, t)).flatten();
+    background(false);
+    match r {
+        Some(kind) => Err(io::Error::new(kind, "simulated I/O error")),
+        None => Ok(()),
+    }
+}
+
+/// Scheduling point inside `run_command` between `pipe2` and `posix_spawn`:
+/// lets the simulator run another whole task inside that window.
+pub fn sched_point() {
+    if TASK_DEPTH.with(|c| c.get()) != 1 {
+        return;
+    }
+    let n = pending_tasks();
+    if n == 0 {
+        return;
+    }
+    let _ = with_host(|h| h.point(Op::Spawn, "", true));
+    if let Some(i) = with_host(|h| h.pick_exec(n, false)).flatten() {
+        run_pending_task(i.min(n - 1));
+    }
+}
+
+pub fn sim_command(
+    cmdline: &str,
+    out: &mut dyn FnMut(&[u8]),
+) -> Option<anyhow::Result<Termination>> {
+    with_host(|h| h.command(cmdline, out)).flatten()
+}
+
+pub fn args(p: lexopt::Parser) -> lexopt::Parser {
+    match with_host(|h| h.args()) {
+        Some(a) => lexopt::Parser::from_args(a),
+        None => p,
+    }
+}
+
+fn st(s: BuildState) -> u8 {
+    match s {
+        BuildState::Unknown => 0,
+        BuildState::Want => 1,
+        BuildState::Ready => 2,
+        BuildState::Queued => 3,
+        BuildState::Running => 4,
+        BuildState::Done => 5,
+        BuildState::Failed => 6,
+    }
+}
+
+fn idx(id: BuildId) -> usize {
+    crate::densemap::Index::index(&id)
+}
+
+pub fn on_state(id: BuildId, build: &Build, prev: BuildState, next: BuildState) {
+    with_host(|h| {
+        h.on_state(
+            idx(id),
+            build.desc.as_deref(),
+            build.cmdline.as_deref(),
+            st(prev),
+            st(next),
+        )
+    });
+}
+
+/// Progress wrapper that reports every notification to the host and then
+/// forwards it to the real console printer.
+pub struct Tee<'a>(pub &'a dyn Progress);
+
+impl<'a> Progress for Tee<'a> {
+    fn update(&self, counts: &StateCounts) {
+        let c = [
+            counts.get(BuildState::Want),
+            counts.get(BuildState::Ready),
+            counts.get(BuildState::Queued),
+            counts.get(BuildState::Running),
+            counts.get(BuildState::Done),
+            counts.get(BuildState::Failed),
+        ];
+        with_host(|h| h.on_update(c));
+        self.0.update(counts)
+    }
+    fn task_started(&self, id: BuildId, build: &Build) {
+        with_host(|h| h.on_task_started(idx(id), build.cmdline.as_deref().unwrap_or("")));
+        self.0.task_started(id, build)
+    }
+    fn task_output(&self, id: BuildId, line: Vec<u8>) {
+        self.0.task_output(id, line)
+    }
+    fn task_finished(&self, id: BuildId, build: &Build, result: &TaskResult) {
+        with_host(|h| {
+            h.on_task_finished(
+                idx(id),
+                build.cmdline.as_deref().unwrap_or(""),
+                &result.termination,
+                &result.output,
+            )
+        });
+        self.0.task_finished(id, build, result)
+    }
+    fn log(&self, msg: &str) {
+        self.0.log(msg)
+    }
+}
+
+pub mod shim {
+    pub use ::std::*;
+
+    pub mod env {
+        pub use ::std::env::*;
+        pub fn args() -> ::std::vec::IntoIter<String> {
+            match super::super::with_host(|h| h.argv0()) {
+                Some(a) => vec![a].into_iter(),
+                None => ::std::env::args().collect::<Vec<_>>().into_iter(),
+            }
+        }
+    }
+
+    pub mod fs {
+        use super::super::{point, Op, WriteFate};
+        pub use ::std::fs::*;
+        use ::std::io;
+        use ::std::path::Path;
+
+        fn s<P: AsRef<Path>>(p: &P) -> String {
+            p.as_ref().to_string_lossy().into_owned()
+        }
+        pub fn metadata<P: AsRef<Path>>(p: P) -> io::Result<Metadata> {
+            point(Op::Stat, &s(&p))?;
+            ::std::fs::metadata(p)
+        }
+        pub fn create_dir_all<P: AsRef<Path>>(p: P) -> io::Result<()> {
+            point(Op::Mkdir, &s(&p))?;
+            ::std::fs::create_dir_all(p)
+        }
+        pub fn write<P: AsRef<Path>, C: AsRef<[u8]>>(p: P, c: C) -> io::Result<()> {
+            point(Op::WriteFile, &s(&p))?;
+            ::std::fs::write(p, c)
+        }
+
+        /// `std::fs::File` with fault points; writes are intercepted only for
+        /// the build log.
+        pub struct File {
+            f: ::std::fs::File,
+            db: bool,
+        }
+        impl File {
+            pub fn create<P: AsRef<Path>>(p: P) -> io::Result<File> {
+                point(Op::Create, &s(&p))?;
+                let db = s(&p).ends_with(".n2_db");
+                ::std::fs::File::create(p).map(|f| File { f, db })
+            }
+            pub fn open<P: AsRef<Path>>(p: P) -> io::Result<File> {
+                point(Op::Open, &s(&p))?;
+                ::std::fs::File::open(p).map(|f| File { f, db: false })
+            }
+            pub fn metadata(&self) -> io::Result<Metadata> {
+                self.f.metadata()
+            }
+        }
+        impl io::Read for File {
+            fn read(&mut self, b: &mut [u8]) -> io::Result<usize> {
+                io::Read::read(&mut self.f, b)
+            }
+        }
+        impl io::Write for File {
+            fn write(&mut self, b: &[u8]) -> io::Result<usize> {
+                if !self.db {
+                    return io::Write::write(&mut self.f, b);
+                }
+                point(Op::DbWrite, "")?;
+                let fate =
+                    super::super::with_host(|h| h.db_write(b.len())).unwrap_or(WriteFate::Full);
+                let put = |f: &mut ::std::fs::File, bytes: &[u8]| -> io::Result<()> {
+                    io::Write::write_all(f, bytes)?;
+                    super::super::with_host(|h| h.db_written(bytes));
+                    Ok(())
+                };
+                match fate {
+                    WriteFate::Full => {
+                        put(&mut self.f, b)?;
+                        Ok(b.len())
+                    }
+                    WriteFate::Short(k) => {
+                        let k = k.clamp(1, b.len().max(1)).min(b.len());
+                        put(&mut self.f, &b[..k])?;
+                        Ok(k)
+                    }
+                    WriteFate::Crash(k) => {
+                        let k = k.min(b.len());
+                        put(&mut self.f, &b[..k])?;
+                        ::std::panic::panic_any(super::super::SimCrash);
+                    }
+                    WriteFate::Err(k, kind) => {
+                        let k = k.min(b.len());
+                        put(&mut self.f, &b[..k])?;
+                        Err(io::Error::new(kind, "simulated write error"))
+                    }
+                }
+            }
+            fn flush(&mut self) -> io::Result<()> {
+                io::Write::flush(&mut self.f)
+            }
+        }
+
+        pub struct OpenOptions(::std::fs::OpenOptions);
+        impl OpenOptions {
+            pub fn new() -> Self {
+                OpenOptions(::std::fs::OpenOptions::new())
+            }
+            pub fn read(&mut self, v: bool) -> &mut Self {
+                self.0.read(v);
+                self
+            }
+            pub fn append(&mut self, v: bool) -> &mut Self {
+                self.0.append(v);
+                self
+            }
+            pub fn open<P: AsRef<Path>>(&self, p: P) -> io::Result<File> {
+                point(Op::DbOpen, &s(&p))?;
+                let db = s(&p).ends_with(".n2_db");
+                self.0.open(p).map(|f| File { f, db })
+            }
+        }
+    }
+
+    pub mod thread {
+        pub use ::std::thread::*;
+        /// Store the closure; the simulator decides when it executes.
+        pub fn spawn<F, T>(f: F)
+        where
+            F: FnOnce() -> T + 'static,
+            T: 'static,
+        {
+            if super::super::with_host(|_| ()).is_none() {
+                // No simulator: run inline (keeps a guard-on build functional).
+                f();
+                return;
+            }
+            super::super::TASKS.with(|t| {
+                t.borrow_mut().push(Box::new(move || {
+                    f();
+                }))
+            });
+        }
+    }
+
+    pub mod sync {
+        pub use ::std::sync::*;
+        /// Per-sender FIFO queues whose heads the simulator interleaves.
+        pub mod mpsc {
+            use ::std::cell::RefCell;
+            use ::std::collections::VecDeque;
+            use ::std::rc::Rc;
+            pub use ::std::sync::mpsc::{RecvError, SendError};
+            struct Chan<T> {
+                queues: RefCell<Vec<VecDeque<T>>>,
+            }
+            pub struct Sender<T> {
+                ch: Rc<Chan<T>>,
+                id: usize,
+            }
+            pub struct Receiver<T> {
+                ch: Rc<Chan<T>>,
+            }
+            impl<T> Clone for Sender<T> {
+                fn clone(&self) -> Self {
+                    let mut q = self.ch.queues.borrow_mut();
+                    q.push(VecDeque::new());
+                    Sender {
+                        ch: self.ch.clone(),
+                        id: q.len() - 1,
+                    }
+                }
+            }
+            pub fn channel<T>() -> (Sender<T>, Receiver<T>) {
+                let ch = Rc::new(Chan {
+                    queues: RefCell::new(vec![VecDeque::new()]),
+                });
+                (
+                    Sender {
+                        ch: ch.clone(),
+                        id: 0,
+                    },
+                    Receiver { ch },
+                )
+            }
+            impl<T> Sender<T> {
+                pub fn send(&self, t: T) -> Result<(), SendError<T>> {
+                    self.ch.queues.borrow_mut()[self.id].push_back(t);
+                    Ok(())
+                }
+            }
+            impl<T> Receiver<T> {
+                fn nonempty(&self) -> Vec<usize> {
+                    let q = self.ch.queues.borrow();
+                    (0..q.len()).filter(|&i| !q[i].is_empty()).collect()
+                }
+                pub fn recv(&self) -> Result<T, RecvError> {
+                    use super::super::super::{background, with_host, Op};
+                    let _ = with_host(|h| h.point(Op::Recv, "", false));
+                    loop {
+                        if self.nonempty().is_empty() {
+                            if !background(true) {
+                                panic!("SIM: deadlock: recv with nothing runnable");
+                            }
+                            continue;
+                        }
+                        background(false);
+                        let nonempty = self.nonempty();
+                        let k = with_host(|h| h.pick_deliver(nonempty.len())).unwrap_or(0);
+                        let i = nonempty[k.min(nonempty.len() - 1)];
+                        return Ok(self.ch.queues.borrow_mut()[i].pop_front().unwrap());
+                    }
+                }
+            }
+        }
+    }
+
+    pub mod collections {
+        pub use ::std::collections::*;
+        /// Set with simulator-chosen iteration order (std's is random per process).
+        pub struct HashSet<T>(::std::vec::Vec<T>);
+        impl<T: PartialEq> HashSet<T> {
+            pub fn new() -> Self {
+                HashSet(Vec::new())
+            }
+            pub fn insert(&mut self, t: T) -> bool {
+                if self.0.contains(&t) {
+                    false
+                } else {
+                    self.0.push(t);
+                    true
+                }
+            }
+        }
+        impl<T> IntoIterator for HashSet<T> {
+            type Item = T;
+            type IntoIter = ::std::vec::IntoIter<T>;
+            fn into_iter(self) -> Self::IntoIter {
+                let n = self.0.len();
+                let perm = super::super::with_host(|h| h.permute(n))
+                    .unwrap_or_else(|| (0..n).collect());
+                let mut items: Vec<Option<T>> = self.0.into_iter().map(Some).collect();
+                let v: Vec<T> = perm
+                    .into_iter()
+                    .map(|i| items[i].take().unwrap())
+                    .collect();
+                v.into_iter()
+            }
+        }
+    }
+}
+
+/// Set or clear the process-global SIGINT flag (simulated ctrl-c / reset
+/// between simulated invocations).
+pub fn set_interrupted(v: bool) {
+    crate::signal::verif_set_interrupted(v);
+}
